@@ -5,6 +5,10 @@ CONSTANTS
   MaxReq = 3
   Overlap = TRUE
   ReturnOnEOF = FALSE
+  MaxPause = 0
+  IdleLimit = 0
+  MaxFaults = 0
+  AcceptSurvives = TRUE
 INVARIANTS TypeOK StepOncePerRequestInOrder AckMatches UnknownGetsUnknown AckAfterStep StateIsEffect NoStuckChild
 PROPERTIES LaterChildCompletes
 CHECK_DEADLOCK FALSE
